@@ -690,6 +690,35 @@ func (enc *VP8Encoder) importImage(img image.Image) {
 		hasAlpha = imageHasAlpha(img)
 	}
 
+	// *image.RGBA stores alpha-premultiplied colours. The direct-access paths
+	// below read Pix as non-premultiplied R,G,B,A, which is only the same
+	// thing for opaque pixels: un-premultiply a translucent RGBA source first
+	// (exactly as color.NRGBAModel does, i.e. as the generic path sees it).
+	if src, ok := img.(*image.RGBA); ok && hasAlpha {
+		conv := image.NewNRGBA(image.Rect(0, 0, w, h))
+		for y := 0; y < h; y++ {
+			so := (y+bounds.Min.Y-src.Rect.Min.Y)*src.Stride + (bounds.Min.X-src.Rect.Min.X)*4
+			do := y * conv.Stride
+			for x := 0; x < w; x++ {
+				a := src.Pix[so+3]
+				switch a {
+				case 0:
+				case 0xff:
+					copy(conv.Pix[do:do+4], src.Pix[so:so+4])
+				default:
+					conv.Pix[do] = uint8((uint32(src.Pix[so]) * 0xffff / uint32(a)) >> 8)
+					conv.Pix[do+1] = uint8((uint32(src.Pix[so+1]) * 0xffff / uint32(a)) >> 8)
+					conv.Pix[do+2] = uint8((uint32(src.Pix[so+2]) * 0xffff / uint32(a)) >> 8)
+					conv.Pix[do+3] = a
+				}
+				so += 4
+				do += 4
+			}
+		}
+		img = conv
+		bounds = conv.Bounds()
+	}
+
 	// Initialize dithering random generator if dithering is enabled.
 	var rg *dsp.VP8Random
 	if enc.config.Dithering > 0 {
